@@ -290,8 +290,8 @@ class PySrv(object):
             sc = self.chan(a[1])
             return self.names_reply(sc) if sc is not None and self.bot_in(sc) else []
         if k == 'who':
-            sc = self.chan(a[1])
-            return self.who_reply(sc) if sc is not None and self.bot_in(sc) else []
+            sc = self.chan(a[1])        # the reply to the WHO the bot sends on joining may come after it left again
+            return self.who_reply(sc) if sc is not None else []
         if k == 'modeis':
             sc = self.chan(a[1])
             if sc is None: return []
@@ -604,7 +604,7 @@ def gen_action(r, S, findings=False):
     if x < 0.915:
         return ('names', _bot_chan(r, S))
     if x < 0.94:
-        return ('who', _bot_chan(r, S))
+        return ('who', _bot_chan(r, S) if r.random() < 0.7 else _some_chan(r, S))
     if x < 0.96:
         # the reply to the MODE query the bot sends on joining; it may arrive after the bot has left again
         return ('modeis', _bot_chan(r, S) if r.random() < 0.5 else _some_chan(r, S))
